@@ -43,6 +43,7 @@ def run(tier):
             kn["lookups"] = 0
             kn["lookup_any"] = 0
             kn["trash"] = min(kn["trash"], 1)
+        kn["annotate"] = i % 2 == 0      # column annotations are names: keys and their identity must not depend on them
         scen.append({"shape": kn, "seed": i, "secret": 100 + i,
                      "threads": [1, 2, 3, 8, 16] if (tier == "thorough" or i < 2) else [1, 3, 16],
                      "downsize": list(range(1, kn["k"] + 3)) if (tier == "thorough" or i == 0) else [1, kn["k"], kn["k"] + 2]})
